@@ -54,7 +54,31 @@ pub fn run_zero_alloc(bytes: &[u8], probes: &[Key]) -> Result<u64, String> {
             return Err(format!("{} point lookups performed {} allocations", 5 * probes.len(), a2 - a1));
         }
         let _ = (f.len(), m.len(), s.len());
-        Ok(5 * probes.len() as u64 + 3)
+        // lookups by value into a caller buffer that is already large enough
+        // (no path of an acyclic FST is longer than the file)
+        let mut kb: Vec<u8> = Vec::with_capacity(bytes.len() + 16);
+        let a3 = alloc::allocs();
+        let mut nv = 0u64;
+        for p in probes {
+            if let Some(v) = m.get(p) {
+                for q in [v, v.wrapping_add(1), v.wrapping_sub(1)] {
+                    kb.clear();
+                    acc += f.get_key_into(q, &mut kb) as u64 + kb.len() as u64;
+                    nv += 1;
+                }
+            }
+        }
+        for q in 0..8u64 {
+            kb.clear();
+            acc += f.get_key_into(q, &mut kb) as u64 + kb.len() as u64;
+            nv += 1;
+        }
+        std::hint::black_box(acc);
+        let a4 = alloc::allocs();
+        if a4 != a3 {
+            return Err(format!("{} get_key_into calls into a caller buffer of sufficient capacity performed {} allocations", nv, a4 - a3));
+        }
+        Ok(5 * probes.len() as u64 + 3 + nv)
     })
     .and_then(|x| x)
 }
@@ -356,7 +380,7 @@ pub fn replay(case: &Value) -> Result<String, String> {
 pub fn plan(tier: Tier) -> Plan {
     let mut p = Plan::new("C14", "exploration");
     let thorough = tier.thorough();
-    p.rule = "counting allocator, per-thread. (1) exhaustive in small scopes: for every FST of all subsets of U_ab3 and U_raw2 (values 3i+1), of the fan-out families and of the 256-byte label family: (a) Fst::new/Map::new/Set::new over borrowed bytes and every get/contains_key/contains of the probe closure perform ZERO allocations (allocation count); (b) stream(), every range (all kind pairs x bound keys of length <= 2; large sets <= 1) and three automaton searches: live heap after EVERY next() <= heap before construction + 4096 + 256*(L+2) + 4*(L+16); (c) union/intersection/difference/symmetric_difference over k = 2..4 FST-backed streams (the FST, its even- and odd-indexed halves, itself): live heap after every next() <= before + 256 + k*(stream bound + 2*max(L,64) + 512). (2) finite ladder (not exhaustive): FSTs of N = 1e4, 1e5 (thorough 1e6) 8-byte keys: full stream/range/search, k = 2..8 way operations over partially overlapping FSTs, and operations over 2-4 identical and over disjoint FSTs (long runs in which nothing is emitted): max extra heap identical (+-256 B) for all N; the same on a wide-node ladder (3-byte keys: root of up to 256 transitions, N/40 distinct non-root nodes of 64 and 40 transitions; N = 10240, 102400, 655360 - the last one a dense root in a file > 64 KiB), with zero-allocation open/lookups on each; on both ladders also is_subset / is_superset / is_disjoint (raw and Set, also against a range stream) and the Debug formatting of Set and Map into a non-allocating sink, traversals abandoned after 1000 items and two streams of one FST advanced alternately: peak extra heap bounded and identical for all N, nothing live afterwards. non-trivial = traversals yielding >= 2 items".into();
+    p.rule = "counting allocator, per-thread. (1) exhaustive in small scopes: for every FST of all subsets of U_ab3 and U_raw2 (values 3i+1), of the fan-out families and of the 256-byte label family: (a) Fst::new/Map::new/Set::new over borrowed bytes and every get/contains_key/contains of the probe closure perform ZERO allocations (allocation count), and so does get_key_into for every value found, its neighbours and 0..7 into a caller buffer of sufficient capacity; (b) stream(), every range (all kind pairs x bound keys of length <= 2; large sets <= 1) and three automaton searches: live heap after EVERY next() <= heap before construction + 4096 + 256*(L+2) + 4*(L+16); (c) union/intersection/difference/symmetric_difference over k = 2..4 FST-backed streams (the FST, its even- and odd-indexed halves, itself): live heap after every next() <= before + 256 + k*(stream bound + 2*max(L,64) + 512). (2) finite ladder (not exhaustive): FSTs of N = 1e4, 1e5 (thorough 1e6) 8-byte keys: full stream/range/search, k = 2..8 way operations over partially overlapping FSTs, and operations over 2-4 identical and over disjoint FSTs (long runs in which nothing is emitted): max extra heap identical (+-256 B) for all N; the same on a wide-node ladder (3-byte keys: root of up to 256 transitions, N/40 distinct non-root nodes of 64 and 40 transitions; N = 10240, 102400, 655360 - the last one a dense root in a file > 64 KiB), with zero-allocation open/lookups on each; on both ladders also is_subset / is_superset / is_disjoint (raw and Set, also against a range stream) and the Debug formatting of Set and Map into a non-allocating sink, traversals abandoned after 1000 items and two streams of one FST advanced alternately: peak extra heap bounded and identical for all N, nothing live afterwards. non-trivial = traversals yielding >= 2 items".into();
     p.assumptions = vec![
         "'for all N' beyond the ladder is not decided; transient per-item allocations that are freed again do not violate the property as stated".into(),
         "memory of user-supplied streams is outside the property".into(),
